@@ -42,6 +42,10 @@ func checkC05(c *Check) {
 	ruleSyntheticEOF(c, p, "R05.9")
 	ruleMagicDispatch(c, p, "R05.13")
 	c.RuleDoc["R05.13"] = "= R19.1: exact value sets of the magic dispatch (a corrupted magic is not taken for a skippable frame)"
+	ruleWindowRetention(c, p, "R05.14")
+	c.RuleDoc["R05.14"] = "= R16.3/R16.4: earlier output is offered to the block decoder as history only for frames that declare dependent blocks (for independent blocks an offset reaching before the block start is corruption, which history would resolve silently)"
+	ruleIsValid(c, p, "R05.15")
+	c.RuleDoc["R05.15"] = "= R19.4: the block-size codes a descriptor may carry are exactly 4..7 (a reserved code is refused even when the check byte matches)"
 	ruleObserversPure(c, p, "R05.12")
 	c.RuleDoc["R05.12"] = "observer methods are pure (= R17.15): Size() cannot consume or judge a header"
 	ruleHeaderParsers(c, p, "R05.11")
